@@ -168,14 +168,26 @@ class Bit(_PrimitiveType, metaclass=_MetaBit):
 
     @_intrinsic
     def __or__(self, other: Bit) -> Bit:
+        if not isinstance(other, Bit):
+            # let the reflected operator of the other operand
+            # (e.g. a Signal/Temporary wrapping a Bit) handle it
+            return NotImplemented
         return Bit(self._val | other._val)
 
     @_intrinsic
     def __and__(self, other: Bit) -> Bit:
+        if not isinstance(other, Bit):
+            # let the reflected operator of the other operand
+            # (e.g. a Signal/Temporary wrapping a Bit) handle it
+            return NotImplemented
         return Bit(self._val & other._val)
 
     @_intrinsic
     def __xor__(self, other: Bit) -> Bit:
+        if not isinstance(other, Bit):
+            # let the reflected operator of the other operand
+            # (e.g. a Signal/Temporary wrapping a Bit) handle it
+            return NotImplemented
         return Bit(self._val ^ other._val)
 
     @_intrinsic
